@@ -174,6 +174,10 @@ def run(chk, notes_key="parts_model"):
         chk.add_tlc(neg, f"{cfg[:-4]} (no cache drop on add: expected to violate {inv})")
         if neg.ok:
             raise MachineryError(f"{cfg} holds: {inv} is vacuous")
+    ok, line = common.run_tlapm("PartsProof", ("Parts",))   # CacheFresh after ANY number of calls
+    chk.notes["parts_proof"] = line
+    if ok is False:
+        raise MachineryError("PartsProof.tla no longer proves: " + line)
     b = Binding()
     pre = b.preflight()
     if pre:
